@@ -22,7 +22,10 @@ def step_residuals(res, cls, u, t, m_i):
     for i in range(n - 1):
         dt = t[i + 1] - t[i]
         b = u[i] if cls == "ideal" else np.minimum(u[i], m_i)
-        a = np.asarray(res.alpha_scaled(b), dtype=float)
+        # scaled diffusivity at the previous profile from the fluid's PUBLIC lookup, not from the reservoir's own helper
+        # (an error inside alpha_scaled would cancel): alpha(m) / alpha(m_i); the ideal reservoir has constant 1
+        a = np.ones_like(b) if cls == "ideal" else \
+            np.asarray(res.fluid.alpha(b), dtype=float) / float(res.fluid.alpha(res.fluid.m_i))
         u1 = u[i + 1]
         lap = np.empty(nx)
         lap[1:-1] = u1[:-2] - 2 * u1[1:-1] + u1[2:]
@@ -38,7 +41,18 @@ def step_residuals(res, cls, u, t, m_i):
     D, G = np.array(D), np.array(G)
     gg = float(np.sum(G * G))
     if gg == 0.0:
-        return None, [], 0.0, 0.0
+        # every new level has a vanishing second difference (flat profiles): the update then says the level did not
+        # move at all - anything else is a violation in its own right
+        worst = []
+        for i in range(n - 1):
+            bmax, dta_, umax, dmax = TOLS[i]
+            # same rounding budget as the general case with the nominal constant nx^2: at mesh ratios ~1e13 a flat
+            # new level IS the correctly rounded solution of a step that starts from a non-flat one
+            tol0 = RES_TOL * max(bmax, (1 + 4 * float(nx) ** 2 * dta_) * umax)
+            if dmax > tol0:
+                worst.append((dmax / tol0, i, int(np.argmax(np.abs(D[i]))), dmax, tol0))
+        worst.sort(reverse=True)
+        return (None, worst, (worst[0][0] if worst else 0.0), 0.0) if worst else (None, [], 0.0, 0.0)
     kappa = float(np.sum(D * G) / gg)
     # resolution of the estimate: D carries rounding of size eps*|u| and G = dt a lap(u) carries 4 eps |u| dt a
     # (after one step of 1e7 the second difference itself is a few ulp of u); to first order
@@ -48,13 +62,19 @@ def step_residuals(res, cls, u, t, m_i):
     nD = eps * float(np.max(np.abs(u))) * np.sqrt(D.size)
     nG = np.sqrt(sum((4 * eps * umax * dta) ** 2 * nx for (_b, dta, umax, _d) in TOLS))
     kappa_unc = float((nD + 3 * abs(kappa) * nG) / np.sqrt(gg)) / max(abs(kappa), 1e-300)
-    R = np.abs(D - kappa * G)
+    k_used, k_slack = kappa, 0.0
+    if kappa_unc > 0.5:
+        # the fitted constant is noise (e.g. one step of 1e7 at p_f/p_i -> 1: the second difference is a few ulp): use
+        # the nominal nx^2 and let the tolerance cover both node conventions ((nx-1)^2 .. (nx+1)^2) instead
+        k_used, k_slack = float(nx) ** 2, 3.0 / nx
+    R = np.abs(D - k_used * G)
     worst = []
     rmax = 0.0
     for i in range(n - 1):
         bmax, dta, umax, dmax = TOLS[i]
         # time stamps of lower precision than double leave the increment itself uncertain by ~eps(time dtype)
-        tol = RES_TOL * max(bmax, (1 + 4 * abs(kappa) * dta) * umax) + 4 * eps_t * dmax
+        tol = RES_TOL * max(bmax, (1 + 4 * abs(k_used) * dta) * umax) + 4 * eps_t * dmax \
+            + k_slack * abs(k_used) * float(np.max(np.abs(G[i])))
         j = int(np.argmax(R[i]))
         ratio = R[i, j] / tol if tol > 0 else (np.inf if R[i, j] > 0 else 0.0)
         rmax = max(rmax, ratio)
@@ -72,7 +92,12 @@ def check_run(res, cls, t, m_i, nx, case):
         return [V("be-residual/finite", "stored field is not finite", case=case)], None, 0.0
     kappa, worst, rmax, kunc = step_residuals(res, cls, u, t, m_i)
     if kappa is None:
-        return viol, None, 0.0
+        if worst:
+            ratio, i, j, r, tol = worst[0]
+            viol.append(V("be-residual/flat-level-moved", f"step {i}->{i + 1}: every stored level is flat (zero second "
+                          f"difference), so the implicit update leaves the level unchanged, but node {j} moved by {r:.3g} "
+                          f"({ratio:.3g}x rounding)", case=case, observed=r, tol=tol))
+        return viol, None, rmax
     lo, hi = (nx - 1) ** 2 * (1 - 1e-6), (nx + 1) ** 2 * (1 + 1e-6)
     if kunc <= 0.5 and not lo * (1 - kunc) <= kappa <= hi * (1 + kunc):
         viol.append(V("be-residual/mesh-constant", f"least-squares mesh constant {kappa:.6g} is outside "
@@ -98,7 +123,7 @@ def cases_S(tier, seed):
     thorough = tier == "thorough"
     nxs = [3, 4, 5, 8, 16, 50, 150, 201, 400, 1000] if thorough else [3, 4, 8, 50, 150, 401]
     tabs = ["T_ship_gas", "A_kink", "A_fall", "S_zdip", "S_zdip_desc"] + (["T_hay", "T_lib", "T_ship_oil", "A_jump", "A_kink1e3", "A_fall"] if thorough else ["A_jump"])
-    pairs = [(100.0, 8000.0), (7000.0, 8000.0), (7990.0, 8000.0)]
+    pairs = [(100.0, 8000.0), (7000.0, 8000.0), (7990.0, 8000.0), (4003.3, 7703.7)]  # the last: both pressures between rows
     if seed:
         off = seed_offset(seed)
         pairs = pairs + [(100.0 + 6000 * off, 8000.0 - 500 * off)]
@@ -120,6 +145,9 @@ def cases_S(tier, seed):
             continue
         out.append({"part": "S", "cls": "single", "table": tab, "p_f": p_f, "p_i": p_i, "nx": nx,
                     "grid": g, "n": n, "T": T, "sched": sc, "seed": seed})
+    for nx, (g, n, T), (p_f, p_i) in itertools.product(nxs, GRIDS, pairs[:2]):  # the two-phase class: its own simulate()
+        out.append({"part": "S", "cls": "two", "table": "T_ship_gas", "p_f": p_f, "p_i": p_i, "nx": nx,
+                    "grid": g, "n": n, "T": T, "sched": "scalar", "seed": seed})
     out.sort(key=lambda c: c["nx"] * c["n"])
     return out
 
@@ -144,10 +172,10 @@ def evaluate_S(case):
 # ---- E: deviation-bounded solver answers ---------------------------------------------------
 def cases_E(tier, seed):
     out = []
-    for cls, tab, nx in itertools.product(["ideal", "single"], ["T_ship_gas", "A_kink"], [5, 20, 250, 600]):
-        if cls == "ideal" and tab != "T_ship_gas":
+    for cls, tab, nx in itertools.product(["ideal", "single", "two"], ["T_ship_gas", "A_kink"], [5, 20, 250, 600]):
+        if cls in ("ideal", "two") and tab != "T_ship_gas":
             continue
-        out.append({"part": "E", "cls": cls, "table": tab if cls == "single" else None, "p_f": 7000.0,
+        out.append({"part": "E", "cls": cls, "table": tab if cls != "ideal" else None, "p_f": 7000.0,
                     "p_i": 8000.0, "nx": nx, "grid": "geometric", "n": 7, "T": 0, "sched": "scalar",
                     "seed": seed, "bound": 2 if tier == "thorough" else 1})
     return out
@@ -163,8 +191,12 @@ def evaluate_E(case, only_choices=None):
     outcomes = {}
     it = ([(only_choices, envfault.run_once(body, only_choices))] if only_choices is not None
           else envfault.explore(body, case["bound"]))
+    base_warned = None
     for choices, r in it:
         execs += 1
+        if base_warned is None:  # the first execution is the baseline (all answers exact): its warnings are not about
+            base_warned = set(r["warned"]) if not any(choices or ()) else set()  # a failed solve
+        r = dict(r, warned=[w_ for w_ in r["warned"] if w_ not in base_warned])
         points = max(points, len(r["points"]))
         direct = max(direct, r["direct_calls"])
         if r["raised"]:
